@@ -128,12 +128,8 @@ func (s *Server) typecheck(ctx context.Context, uri lsp.DocumentURI, version uin
 		}
 	}
 	for _, p := range status.FromError(err) {
-		rng, _, _ := strings.Cut(content[p.Origin.Offset:p.Origin.EndOffset], "\n")
 		res = append(res, lsp.Diagnostic{
-			Range: lsp.Range{
-				Start: lsp.Position{Line: uint32(p.Origin.Line - 1), Character: uint32(p.Origin.Column - 1)},
-				End:   lsp.Position{Line: uint32(p.Origin.Line - 1), Character: uint32(p.Origin.Column - 1 + len(rng))},
-			},
+			Range:    rangeAt(content, p.Origin.Line, p.Origin.Offset, p.Origin.EndOffset),
 			Severity: lsp.DiagnosticSeverityError,
 			Message:  p.Msg,
 			Source:   "textmapper",
@@ -232,16 +228,35 @@ func (id id) Kind() int {
 }
 
 func (id id) Location(uri lsp.DocumentURI) lsp.Location {
-	line, col := id.Node.LineColumn()
-
-	// Note: this function does not handle Unicode correctly
+	line, _ := id.Node.LineColumn()
 	return lsp.Location{
-		URI: uri,
-		Range: lsp.Range{
-			Start: lsp.Position{Line: uint32(line - 1), Character: uint32(col - 1)},
-			End:   lsp.Position{Line: uint32(line - 1), Character: uint32(col - 1 + len(id.Node.Text()))},
-		},
+		URI:   uri,
+		Range: rangeAt(id.Node.Tree().Text(), line, id.Node.Offset(), id.Node.Endoffset()),
 	}
+}
+
+// rangeAt returns the LSP range of content[offset:endoffset] (cut at the end of its
+// first line), which starts on the given 1-based line. LSP columns count UTF-16 code
+// units, not bytes.
+func rangeAt(content string, line, offset, endoffset int) lsp.Range {
+	start := strings.LastIndexByte(content[:offset], '\n') + 1
+	text, _, _ := strings.Cut(content[offset:endoffset], "\n")
+	col := utf16Len(content[start:offset])
+	return lsp.Range{
+		Start: lsp.Position{Line: uint32(line - 1), Character: uint32(col)},
+		End:   lsp.Position{Line: uint32(line - 1), Character: uint32(col + utf16Len(text))},
+	}
+}
+
+func utf16Len(s string) int {
+	var n int
+	for _, r := range s {
+		n++
+		if r > 0xffff {
+			n++ // a surrogate pair
+		}
+	}
+	return n
 }
 
 func collectIDs(ctx context.Context, filename, content string) []id {
